@@ -2,6 +2,7 @@ package vrt
 
 import (
 	"fmt"
+	"os"
 	"runtime/debug"
 	"strings"
 )
@@ -100,7 +101,25 @@ func IsFatal(r interface{}) (string, bool) {
 func NewSched(pol Policy) *Sched {
 	s := &Sched{pol: pol, rng: NewRand(Mix(pol.Seed, 0x5c4ed)), mainCh: make(chan struct{}, 1), StepCap: 50_000_000}
 	s.Event = EventBase
+	if traceLogPath != "" {
+		s.LogOn = true
+	}
 	return s
+}
+
+// traceLogPath (env VSIM_TRACELOG): developer aid, every scheduling point of every phase is appended to this file.
+var traceLogPath = os.Getenv("VSIM_TRACELOG")
+
+func (s *Sched) flushLog() {
+	if traceLogPath == "" || len(s.Log) == 0 {
+		return
+	}
+	f, err := os.OpenFile(traceLogPath, os.O_CREATE|os.O_APPEND|os.O_WRONLY, 0o644)
+	if err != nil {
+		return
+	}
+	defer f.Close()
+	f.WriteString("--- phase\n" + strings.Join(s.Log, "\n") + "\n")
 }
 
 // Go registers a task. All tasks must be registered before Run.
@@ -132,6 +151,7 @@ func (s *Sched) Run() {
 	RaceAcquire(&s.joinAddr)
 	EventBase = s.Event
 	S = nil
+	s.flushLog()
 }
 
 func (s *Sched) taskMain(t *Task) {
